@@ -88,9 +88,9 @@ func negOfferStr(of negOffer) string {
 
 // token-list negotiation: the abstract tokens t1..t3 stand for real charsets / encodings / languages
 var negTokens = map[string]map[string]string{
-	"Accept-Charset":  {"t1": "utf-8", "t2": "iso-8859-1", "t3": "us-ascii", "*": "*"},
-	"Accept-Encoding": {"t1": "gzip", "t2": "br", "t3": "deflate", "*": "*"},
-	"Accept-Language": {"t1": "en", "t2": "de", "t3": "fr", "*": "*"},
+	"Accept-Charset":  {"t1": "utf-16", "t2": "iso-8859-1", "t3": "us-ascii", "*": "*", "t1x": "utf-16le"},
+	"Accept-Encoding": {"t1": "gzip", "t2": "br", "t3": "deflate", "*": "*", "t1x": "gzip2"},
+	"Accept-Language": {"t1": "en", "t2": "de", "t3": "fr", "*": "*", "t1x": "eng"},
 }
 
 func negTokenCase(app *fiber.App, o *out, cs *negCase, n int) (picked bool) {
@@ -109,6 +109,9 @@ func negTokenCase(app *fiber.App, o *out, cs *negCase, n int) (picked bool) {
 			sep, psep := ", ", ";"
 			if (style+n)%4 == 1 {
 				sep, psep = " , ", " ; "
+			}
+			if (style+n)%4 == 2 {
+				sep = ",, " // an empty list element is ignored (RFC 9110 5.6.1)
 			}
 			for _, r := range cs.Header {
 				s := tm[r.Type]
